@@ -991,3 +991,86 @@ class Hdf5RaggedList:
 register(Obligation(name="C17.hdf5.per_k_lists_roundtrip_any_length", prop=PROP, engine="Z", functions=["eminus.extras.hdf5:write_hdf5", "eminus.extras.hdf5:read_hdf5"],
                     run=Hdf5RaggedList(), assumes=("h5py-group-map", "str-injective"),
                     doc="HDF5: a list of N arrays of different shapes (per-k-point data, '_active' tuples) is restored element by element in the stored order, for every N"))
+
+
+# =================================================================================================
+# bounded native cases the symbolic-text obligations do not instantiate: CUBE with FODs, trailing lines in foreign files
+# =================================================================================================
+
+
+class NativeExtraCases:
+    """BOUNDED: (a) CUBE written with FODs of both spin channels and read back: atoms, FOD pseudo-atoms with their symbols, cell, sampling and field to the
+    printed precision (triclinic cell, anisotropic sampling); (b) foreign XYZ / POSCAR files with trailing blank lines (and a velocities block in the
+    POSCAR case): the documented number of atoms is read, the rest is ignored."""
+
+    def problems(self):
+        import tempfile
+
+        import eminus
+        from eminus import Atoms
+        from eminus.io import read, write
+
+        eminus.config.backend = "numpy"
+        eminus.config.verbose = "critical"
+        bad = []
+        with tempfile.TemporaryDirectory() as d:
+            a = np.array([[8.0, 0.0, 0.0], [2.0, 10.0, 0.0], [1.0, 3.0, 12.0]])
+            at = Atoms(["O", "H", "H"], [[1.0, 1.1, 0.9], [2.5, 1.0, 1.4], [1.0, 2.6, 2.2]], ecut=1, a=a, unrestricted=True)
+            at.s = [6, 8, 10]
+            at.build()
+            field = np.linspace(-1.0, 2.0, at.Ns)
+            fods = [np.array([[1.2, 1.0, 1.0], [2.0, 1.0, 1.3]]), np.array([[1.0, 2.0, 2.0]])]
+            fn = os.path.join(d, "w.cube")
+            try:
+                write(at, fn, field, fods=fods)
+                atom, pos, Z, a2, s2, f2 = read(fn)
+                want_atoms = ["O", "H", "H", "X", "X", "He"]
+                want_pos = np.vstack([np.asarray(at.pos), fods[0], fods[1]])
+                if list(atom) != want_atoms:
+                    bad.append(dict(case="cube with FODs", species_read=list(atom), expected=want_atoms))
+                elif np.abs(np.asarray(pos) - want_pos).max() > 2e-6:
+                    bad.append(dict(case="cube with FODs", position_error=float(np.abs(np.asarray(pos) - want_pos).max())))
+                if np.abs(np.asarray(a2) - a).max() > 2e-5 or list(np.asarray(s2)) != [6, 8, 10]:
+                    bad.append(dict(case="cube with FODs", cell_read=np.asarray(a2).tolist(), sampling_read=np.asarray(s2).tolist()))
+                if np.shape(f2) != (at.Ns,) or np.abs(np.asarray(f2) - field).max() > 1e-6:
+                    bad.append(dict(case="cube with FODs", field="differs"))
+            except Exception as e:  # noqa: BLE001
+                bad.append(dict(case="cube with FODs", raised=f"{type(e).__name__}: {e}"))
+            # foreign XYZ with a comment line and trailing blank lines
+            fx = os.path.join(d, "f.xyz")
+            open(fx, "w").write("3\nwater, trailing blank lines\nO   0.000000  0.000000  0.117300\nH   0.000000  0.757200 -0.469200\nH   0.000000 -0.757200 -0.469200\n\n\n")
+            try:
+                atom, pos = read(fx)
+                if list(atom) != ["O", "H", "H"] or np.shape(pos) != (3, 3) or abs(float(np.asarray(pos)[1, 1]) - 0.7572 / 0.529177210903) > 1e-5:
+                    bad.append(dict(case="xyz with trailing blank lines", atoms=list(atom), pos=np.asarray(pos).tolist()))
+            except Exception as e:  # noqa: BLE001
+                bad.append(dict(case="xyz with trailing blank lines", raised=f"{type(e).__name__}: {e}"))
+            # foreign POSCAR: scaling factor, Direct coordinates, then a blank line and a velocities block
+            fp = os.path.join(d, "f.POSCAR")
+            open(fp, "w").write("hexagonal test\n2.0\n 2.0 0.0 0.0\n -1.0 1.7320508 0.0\n 0.0 0.0 3.0\nB N\n1 1\nDirect\n 0.333333 0.666667 0.25\n 0.666667 0.333333 0.75\n\n 0.0 0.0 0.0\n 0.0 0.0 0.0\n")
+            try:
+                atom, pos, a3 = read(fp)
+                lat = 2.0 * np.array([[2.0, 0.0, 0.0], [-1.0, 1.7320508, 0.0], [0.0, 0.0, 3.0]]) / 0.529177210903
+                want = np.array([[0.333333, 0.666667, 0.25], [0.666667, 0.333333, 0.75]]) @ lat
+                if list(atom) != ["B", "N"] or np.shape(pos) != (2, 3) or np.abs(np.asarray(pos) - want).max() > 1e-5 or np.abs(np.asarray(a3) - lat).max() > 1e-5:
+                    bad.append(dict(case="POSCAR with velocities block", atoms=list(atom), pos=np.asarray(pos).tolist(), expected=want.tolist()))
+            except Exception as e:  # noqa: BLE001
+                bad.append(dict(case="POSCAR with velocities block", raised=f"{type(e).__name__}: {e}"))
+        return bad
+
+    def __call__(self, ob, tier, seed):
+        from pycv.framework import BOUNDED_OK
+
+        bad = self.problems()
+        if bad:
+            return Result(REFUTED, backend="native", witness=bad[0], replayed=True, replay_info=dict(failing=bad[:4]), detail=f"file round trip / foreign file: {bad[0]}")
+        return Result(BOUNDED_OK, backend="native", detail="bounded: CUBE with FODs of both spin channels (triclinic, anisotropic sampling); XYZ and POSCAR (scaled, Direct) with trailing lines")
+
+    def replay(self, wit):
+        bad = self.problems()
+        return bool(bad), dict(failing=bad[:4])
+
+
+register(Obligation(name="C17.native.cube_with_fods_and_trailing_lines", prop=PROP, engine="B", bounded=True, run=NativeExtraCases(),
+                    functions=["eminus.io.cube:write_cube", "eminus.io.cube:read_cube", "eminus.io.xyz:read_xyz", "eminus.io.poscar:read_poscar"],
+                    doc="BOUNDED: CUBE with FODs; foreign XYZ / POSCAR files with trailing blank lines and a velocities block"))
